@@ -79,6 +79,15 @@ fn too_close_to_one(x: Decimal) -> bool {
     (x - Decimal::ONE).abs() <= Decimal::new(1, 17)
 }
 
+/// a result formed from an approximate operand is rounded at 28 fractional digits on top of the propagated error: one
+/// unit in the last place either way (0.5 * 1e-28 rounds to 0 or to 1e-28 depending on the 29th digit of the 0.5)
+fn resolution(q: Q) -> Q {
+    match q {
+        Q::Tol(t) => Q::Tol(t + 1e-28),
+        o => o,
+    }
+}
+
 fn un(x: R, g: impl Fn(Decimal, Q) -> R) -> R {
     match x {
         RV::Val(v, q) => g(v, q),
@@ -178,15 +187,15 @@ pub fn eval(n: &Node, at: Decimal) -> R {
             }
             match b {
                 BinOp::Add => match a.checked_add(c) {
-                    Some(v) => RV::Val(v, q_add(aq, cq, f(v))),
+                    Some(v) => RV::Val(v, resolution(q_add(aq, cq, f(v)))),
                     None => RV::MustErr("sum outside the Decimal range"),
                 },
                 BinOp::Sub => match a.checked_sub(c) {
-                    Some(v) => RV::Val(v, q_add(aq, cq, f(v))),
+                    Some(v) => RV::Val(v, resolution(q_add(aq, cq, f(v)))),
                     None => RV::MustErr("difference outside the Decimal range"),
                 },
                 BinOp::Mul | BinOp::Impl => match a.checked_mul(c) {
-                    Some(v) => RV::Val(v, q_mul(aq, f(a), cq, f(c), f(v))),
+                    Some(v) => RV::Val(v, resolution(q_mul(aq, f(a), cq, f(c), f(v)))),
                     None => RV::MustErr("product outside the Decimal range"),
                 },
                 BinOp::Div => {
